@@ -330,6 +330,10 @@ def stream_list(chk):
     add("tiles-2cols", 192, 128, **lr({"tile_columns": 1}))
     add("portrait-odd-tilerows", 136, 200, **lr({"tile_rows": 1}))
     add("tenbit", 128, 128, bd=10, **lr())
+    # tile layout changes mid-stream (seeded change C09-1: the last worker kept its freed context after the re-initialisation)
+    S.append({"name": "tile-layout-changes", "w": 256, "h": 128, "n": 4, "bd": 8, "dec16": 0, "cfg": {}, "seed": rng.range(1, 10**6), "content": 4,
+              "probe": None, "lr_on": False,
+              "parts": [{}, {"tile_columns": 1}, {"tile_columns": 1, "tile_rows": 1}, {"tile_rows": 1}, {}]})
     add("lr-mt-probe-stripe", 192, 128, n=4, seed=77, content=4, probe="lr", enable_restoration_filtering=1)
     add("lr-mt-probe-race", 136, 200, n=3, seed=99518, content=4, probe="lr-race", tile_rows=1, enable_restoration_filtering=1)
     if chk.tier != "quick":
@@ -364,6 +368,25 @@ def stream_list(chk):
 
 
 def encode_stream(s):
+    if s.get("parts"):
+        # several coded video sequences of the same resolution, back to back in one stream: the tile layout changes mid-stream, which makes
+        # the multi-threaded decoder tear down and re-create its per-worker contexts (check_mt_support -> dec_system_resource_init)
+        merged = None
+        for k, cfg in enumerate(s["parts"]):
+            r = encode_stream(dict(s, parts=None, cfg=cfg, seed=s["seed"] + k))
+            if r["crashed"] or r["hung"] or not r["HEX"]:
+                return r
+            if merged is None:
+                merged = r
+                merged["HEX"] = dict(r["HEX"])
+            else:
+                base = max(merged["HEX"]) + 1
+                for i in sorted(r["HEX"]):
+                    merged["HEX"][base + i] = r["HEX"][i]
+                merged["DEC"] = merged["DEC"] + r["DEC"]
+                merged["CMP"] = merged["CMP"] + r["CMP"]
+                merged["argv"] += "  ++  " + r["argv"]
+        return merged
     args = {"w": s["w"], "h": s["h"], "n": s["n"], "bd": s["bd"], "seed": s["seed"], "content": s["content"], "hex": 1,
             "dec_threads": 1, "watchdog": 900}
     for k, v in s["cfg"].items():
